@@ -131,7 +131,7 @@ func level1() {
 				}
 				for H := 0; H < 1<<uint(n); H++ {
 					for L := 0; L < 1<<uint(n); L++ {
-						for hist := 0; hist < 3; hist++ {
+						for hist := 0; hist < 4; hist++ {
 							l1cell(kind, s, all, H, L, hist)
 						}
 					}
@@ -167,6 +167,12 @@ func l1cell(kind string, s strat, all []*domain.Endpoint, H, L, hist int) {
 		case 1: // the opposite listing first, then the final one
 			reg.RegisterModels(ctx, e.URLString, opposite)
 			hdesc = append(hdesc, e.Name+":opposite-then-final")
+		case 3: // endpoints that do not serve M any more used to list it and now report an empty listing
+			if L&(1<<uint(i)) == 0 {
+				reg.RegisterModels(ctx, e.URLString, with)
+				final = nil
+				hdesc = append(hdesc, e.Name+":with-then-empty")
+			}
 		case 2: // listed, removed, then final
 			reg.RegisterModels(ctx, e.URLString, with)
 			reg.RemoveEndpoint(ctx, e.URLString)
@@ -420,7 +426,7 @@ func main() {
 	}
 	res.Info["bounds"] = map[string]any{"strategies": sn, "endpoints_L1": "1..3", "endpoints_L2": map[string]string{"quick": "2", "thorough": "2..3"}[report.Tier],
 		"spellings_L1": []string{"m1 (exact)", "M1", "m1:latest", "zz-unknown"}, "spellings_L2": []string{"m1", "Mx-7B (as listed)", "zz-unknown"},
-		"histories_L1": []string{"final listing only", "opposite listing then final", "listed, endpoint removed, final"}, "routes_L2": []string{"proxy", "provider(openai)", "anthropic(translation)"}}
+		"histories_L1": []string{"final listing only", "opposite listing then final", "listed, endpoint removed, final", "listed, then an empty listing"}, "routes_L2": []string{"proxy", "provider(openai)", "anthropic(translation)"}}
 	res.Info["rule"] = "states = distinct (configuration, healthy set, listing set, spelling, outcome) tuples; each is one call of the real GetRoutableEndpointsForModel (L1) or one request through the booted olla (L2)"
 	res.Assume("asynchronous unification is given time to settle before routing is judged (its correctness is C10's subject)")
 	res.Finish()
